@@ -229,7 +229,7 @@ fn tagged_templates(rep: &mut Report, only: Option<&serde_json::Value>) {
                         }
                     }
                     // names sorting both ways relative to the template
-                    let (w, i) = if k % 2 == 0 { (format!("Wrap{k}"), format!("Zinst{k}")) } else { (format!("Wrap{k}"), format!("Ainst{k}")) };
+                    let (w, i) = if (k / 2 + k / 6 + k) % 2 == 0 { (format!("Wrap{k}"), format!("Zinst{k}")) } else { (format!("Wrap{k}"), format!("Ainst{k}")) };
                     let src = format!("Tpl-Mod DEFINITIONS {env} ::= BEGIN\n{w} {{ P }} ::= {tt}{body}\n{i} ::= {it}{w} {{ BOOLEAN }}\nEND\n");
                     rep.evaluations += 1;
                     rep.count("tagged-template");
